@@ -95,6 +95,8 @@ def _roundtrip(text, fspec, exp_content):
     if exp_content is not None and c1 != exp_content:
         return ("first-parse-content", repr(c1), repr(exp_content))
     t1 = bibtexparser.write_string(l1, bibtex_format=fmt)
+    if content(l1) != c1:
+        return ("write-changed-the-parsed-library", repr(content(l1)), repr(c1))
     l2 = bibtexparser.parse_string(t1)
     c2 = content(l2)
     if any(isinstance(b, ParsingFailedBlock) for b in l2.blocks):
